@@ -1,6 +1,8 @@
 import BddVerif.Props.C12
 import BddVerif.Lemmas.AlgoEq2BytesSpec
 import BddVerif.Lemmas.AlgoEq3TextDriver
+import BddVerif.Lemmas.AlgoEq4Misc
+import BddVerif.Lemmas.AlgoEq4Display
 #print axioms B.Props.C12.text_roundtrip_chars
 #print axioms B.Props.C12.text_roundtrip
 #print axioms B.Props.C12.bytes_roundtrip
@@ -41,3 +43,7 @@ import BddVerif.Lemmas.AlgoEq3TextDriver
 #print axioms B.AlgoEq3Text.Bdd_from_string_to_string
 #print axioms B.AlgoEq3Text.Bdd_write_as_string_driver
 #print axioms B.AlgoEq3Text.Bdd_read_as_string_driver
+#print axioms B.AlgoEq4.Bdd_to_nodes_eq_model
+#print axioms B.AlgoEq4.from_nodes_to_nodes_translated
+#print axioms B.AlgoEq4.BddPointer_fmt_eq
+#print axioms B.AlgoEq4.BddVariable_fmt_eq
